@@ -1378,6 +1378,9 @@ def compile_pattern(compiler, pattern):
         ]
         return asty.MatchSequence(value, patterns=patterns)
     elif is_unpack("iterable", value):
+        if value[1] == Symbol("_"):
+            # `#* _` is the wildcard star pattern, which binds nothing.
+            return asty.MatchStar(value, name=None)
         return compiler.scope.assign(asty.MatchStar(value, name=mangle(value[1])))
 
     elif isinstance(value, Dict):
